@@ -228,7 +228,7 @@ def replacement_shape(ctx, s):
         gated = True
         if class_nodes:
             cfg = an.cfg
-            reach = cfg.reach_from(class_nodes, avoid=none_edges)
+            reach = s.reach(fn, class_nodes, avoid=none_edges)
             # d-less parameterized events skip the block entirely: allowed (no address)
             gated = not ({ab} & reach) or cls.startswith("is_param")
             if cls.startswith("is_param"):
@@ -240,7 +240,7 @@ def replacement_shape(ctx, s):
                             d_edges.append(node)
                 d_after = [n for n in d_edges if any(cfg.dominates(c, n) for c in class_nodes) and cfg.dominates(n, rb)]
                 if d_after:
-                    reach = cfg.reach_from(d_after, avoid=none_edges)
+                    reach = s.reach(fn, d_after, avoid=none_edges)
                     gated = ab not in reach
         ok = okcls and okaddr and okuntil and okf and order and some_edges and not leak and gated
         s.add("S-ORDER", fn, "displace-then-refuse", cls, rinfo["sp"], PROVED if ok else VIOLATION,
